@@ -167,7 +167,7 @@ func main() {
 		p := 128 * time.Second
 		bts := []time.Duration{0, p - 1, p, 7 * p, 8*p - 1, 8 * p, time.Duration(1443312000) * time.Second, time.Duration(1<<63 - 1),
 			time.Duration(r.U64() >> 2), time.Duration(r.U64() >> 12)}
-		neg := []time.Duration{-1, -p, -p - 1, -9 * p, time.Duration(-1 << 63)}
+		neg := []time.Duration{-1, -p, -p - 1, -9 * p, time.Duration(-1 << 63), -2 * p, -8 * p, -1024 * time.Second, -p + 1, -(1<<24)*p + 1, -time.Second}
 		add := func(da uint32, bt time.Duration, kind string) {
 			var d lorawan.DevAddr
 			binary.BigEndian.PutUint32(d[:], da)
@@ -211,9 +211,14 @@ func main() {
 			}
 		}
 		for i, bt := range neg {
-			// a negative time since the GPS epoch is outside the property; kept to pin Go's
-			// truncating % in the model
+			// a negative time since the GPS epoch: never a panic (the truncating % once gave a negative
+			// channel number); the hopping regions answer with an error
 			add(das[i%len(das)], bt, "ping-slot-negative-time")
+			if !c.Alias || thorough {
+				for _, da := range []uint32{0, 1, 3, 8} {
+					add(da, bt, "ping-slot-negative-time")
+				}
+			}
 		}
 		if thorough {
 			for i := 0; i < 400; i++ {
